@@ -114,11 +114,7 @@ theorem vehPred_runInv {P : Sim → Vehicle → Bool} (hP : VehPred env P) :
   arrival := by
     intro s s' r _ hi hf hu _ h
     rw [allVeh_iff] at hi ⊢
-    have hv : s'.vehicles = s.vehicles := by
-      unfold Sim.addRequest at h
-      split at h
-      · cases h
-      · cases h; rfl
+    have hv : s'.vehicles = s.vehicles := (addRequest_fields hf h).1
     intro veh hm
     rw [hv] at hm
     exact hP.arrival hf hu h veh hm (hi veh hm)
